@@ -558,15 +558,14 @@ example : wfInter toyCharSpec C01_allExt [.and] [] { digits := ['1'] } { name :=
 /-! ### the step layer with every component form -/
 
 /-- Step composition over all segment families (`SegX`): text runs, ingredients and cookware in
-    braces form and in single-word form, timers.  Under `segsXOK` (each segment satisfies the
+    braces form and in single-word form, timers, ingredients with an intermediate reference.  Under `segsXOK` (each segment satisfies the
     side conditions of its layer; two text runs do not touch; what follows a component is as its
     layer requires: `restOK`, `noParenNext`, `shortRestOK`) `parse_step` emits `start step`, exactly
     one event per segment in order (`SegsXEvs`: the text of a run is its visible characters, a
     component event matches the intended component) and `stop step`, and NOTHING else — no error,
     no warning, no panic — with the cursor at the end of the block.  This discharges the `partial`
-    of `C01_step_compose_partial` for timers and single-word components.
-    Partial: components carrying an intermediate reference `&(…)` are not among the segments. -/
-theorem C01_step_compose_all_forms_partial {α : Type} [Arith α] (segs : List SegX) (s : BP α) (ts : List Tok)
+    of `C01_step_compose_partial`: every component form of the component layer is a segment. -/
+theorem C01_step_compose {α : Type} [Arith α] (segs : List SegX) (s : BP α) (ts : List Tok)
     (hs : Spells ts (segs.flatMap SegX.spell)) (ht : s.toks = ts) (hc : s.cur = 0)
     (hrun : RunAt (baseOff ts) ts) (hok : segsXOK s.cs s.ext segs = true) :
     ∃ (evs : List (Ev α)) (arr : Array (Ev α)),
@@ -584,6 +583,8 @@ def C01_exStepX : List SegX :=
    .timer C01_exTimer C01_exCPad,
    .text [tk .ws [' '], tk .word "in".toList, tk .ws [' ']],
    .cookware1 { name := [tk .word "pot".toList] },
+   .text [tk .dot ['.'], tk .newline ['\n']],
+   .ingredientI [.minus] [.question] C01_exInter C01_exIPad { name := [tk .word "dough".toList] } {},
    .text [tk .dot ['.']]]
 example : segsXOK toyCharSpec C01_timerExt C01_exStepX = true := by decide
 /-- a single-word component followed (anywhere before the next marker) by `{` is rejected -/
